@@ -439,7 +439,7 @@ def confirm_blowup(pattern: t.Union[str, bytes], flags: int, method: str, w: t.D
         spent = 0.0
         while k <= 64 and spent < budget_s:
             dt = run(k)
-            if dt > 0.004:
+            if dt > 0.0005:
                 dt = min(dt, run(k))
             spent += dt * 2
             times.append((k, dt))
@@ -447,6 +447,12 @@ def confirm_blowup(pattern: t.Union[str, bytes], flags: int, method: str, w: t.D
                 break
             k += 1
         big = [(k, dt) for k, dt in times if dt > 0.004]
+        # a pump of several characters can multiply the work by 10 or more per step and cross from "too fast to time" to
+        # "too slow to continue" in two steps: two consecutive increments of >= x3 (timed from 0.5 ms, best of two runs) count too
+        fast = [(k, dt) for k, dt in times if dt > 0.0005]
+        for (k1, t1), (k2, t2), (k3, t3) in zip(fast, fast[1:], fast[2:]):
+            if k2 == k1 + 1 and k3 == k2 + 1 and t2 >= 3 * t1 and t3 >= 3 * t2 and t3 > 0.05:
+                return {"tail": tail, "k": k3, "seconds": round(t3, 3), "family": f"{w['prefix']!r} + {w['pump']!r}*k + {tail!r}"}
         streak = 0
         for (k1, t1), (k2, t2) in zip(big, big[1:]):
             if k2 == k1 + 1 and t2 >= 1.7 * t1:
